@@ -85,6 +85,18 @@ fn contact(ep: &Endpoint, s: &str) -> Contact {
 /// drive a session: log every event with its virtual time; answer re-INVITEs and BYEs by default
 async fn drive_session(mut session: Session, log: EvLog, start: tokio::time::Instant, tag: String, refresh_mode: String) {
     let mut refreshes = 0;
+    if refresh_mode.contains("probe") {
+        // C11: a request created inside the freshly established dialog (request URI, Route lines as they would go out)
+        use sip_types::print::AppendCtx;
+        let r = session.dialog.create_request(Method::OPTIONS);
+        let text = r.headers.to_string();
+        let routes: Vec<String> = text
+            .split("\r\n")
+            .filter(|l| l.to_ascii_lowercase().starts_with("route:"))
+            .flat_map(|l| l.splitn(2, ':').nth(1).unwrap_or("").split(',').map(|x| x.trim().trim_matches(|c| c == '<' || c == '>').to_string()).collect::<Vec<_>>())
+            .collect();
+        log.lock().push((next_seq(), now_ms(start), format!("probe:{}:uri={}/route={}", tag, r.line.uri.default_print_ctx(), routes.join("+")).replace(' ', "_")));
+    }
     loop {
         let ev = session.drive().await;
         let t = now_ms(start);
@@ -98,7 +110,7 @@ async fn drive_session(mut session: Session, log: EvLog, start: tokio::time::Ins
                     break;
                 }
                 tokio::time::sleep(Duration::from_millis(1)).await;
-                if refresh_mode == "do" {
+                if refresh_mode.starts_with("do") {
                     let res = r.process_default().await;
                     log.lock().push((next_seq(), now_ms(start), format!("refresh-done:{}:{}", tag, res.is_ok())));
                 }
@@ -128,6 +140,10 @@ async fn drive_session(mut session: Session, log: EvLog, start: tokio::time::Ins
 }
 
 async fn drive_early(mut early: Early, log: EvLog, start: tokio::time::Instant, tag: String, refresh_mode: String) {
+    if let Some(ms) = refresh_mode.split("+slow=").nth(1).and_then(|x| x.split('+').next()).and_then(|x| x.parse::<u64>().ok()) {
+        // C13: an application that looks at its early dialog late (the responses queue up meanwhile)
+        tokio::time::sleep_until(start + Duration::from_millis(ms)).await;
+    }
     loop {
         match early.receive().await {
             Ok(EarlyResponse::Provisional(r, rseq)) => {
@@ -222,7 +238,8 @@ pub async fn run_case(case: Vec<String>) -> String {
     let mut req_counter = 0;
     let mut cseq_counter = 0; // consecutive CSeq numbers for the peer's in-dialog requests (ACK re-uses one)
     let mut tasks: Vec<tokio::task::JoinHandle<()>> = vec![];
-    let refresh_mode = if setup.contains("refresh=do") { "do".to_string() } else { "log".to_string() };
+    let refresh_mode = format!("{}{}", if setup.contains("refresh=do") { "do" } else { "log" }, if setup.contains("probe") { "+probe" } else { "" })
+        + &setup.split(';').find_map(|kv| kv.strip_prefix("slowearly=")).map(|v| format!("+slow={}", v)).unwrap_or_default();
 
     // identifiers of the dialog as the peer sees it; on the UAC side they are read from our INVITE
     let uac_ids: Arc<Mutex<Option<(String, String)>>> = Default::default(); // (call-id, our tag)
